@@ -141,6 +141,25 @@ def scenarios(ctx, oracle):
     for i, one in enumerate(plays):
         for w in range(0, len(one) - 3, 3 if quick else 1):
             sc.append(('shallow', f'window{i}.{w}', [mk_search(3, -1, 0, 0, 1, [], one[w + 2]), mk_search(3, -1, 0, 0, 1, [], one[w]), mk_search(3, -1, 0, 0, 1, [], one[w + 1])]))
+    # cadence: searches of well over 16384 nodes without hook polls -- the engine's own polling cadence (C09: maxgap in the END line)
+    for name, d in ([('kiwipete', 4)] if quick else [('kiwipete', 4), ('pos4', 4), ('pos5', 4), ('start', 5)]):
+        if name in seeds: sc.append(('cadence', f'{name}@d{d}', [mk_search(d, -1, 0, 0, 1, [], seeds[name])]))
+    # ... and large tactical searches on the engine alone (quiescence-heavy trees; hundreds of thousands of nodes)
+    for name, d in ([('kiwipete', 6), ('pos4', 5)] if quick else [('kiwipete', 7), ('pos4', 6), ('pos5', 6), ('start', 7), ('pos3', 8)]):
+        if name in seeds: sc.append(('cadence!', f'{name}@d{d}', [mk_search(d, -1, 0, 0, 0, [], seeds[name])]))
+    # deep: bare kings searched to the ply limit and beyond (C06: MAX_PLY guards)
+    for fen in ['8/8/8/8/8/k7/8/K7 w - - 0 1'] + ([] if quick else ['8/8/4k3/8/8/3K4/8/8 b - - 0 1']):
+        gk = oracle.ask('rekey ' + posgen.fen_to_fields(fen))
+        sc.append(('deep', fen.split()[0] + '@d66', [mk_search(66, -1, 0, 0, 1, [], gk)]))
+    # sessions: many consecutive positions of one playout searched with the table kept (warm-table effects on PVs and scores)
+    for i, one in enumerate(plays[:(2 if quick else 20)]):
+        ss = [mk_search(3 + (k % 2), -1, 0, 0, 1, [], one[k]) for k in range(0, min(len(one), 24))]
+        sc.append(('session', f'playout{i}', ss))
+    # ... and long engine-only sessions (the output monitors need no model run): whole playouts searched move by move at depth 3-5
+    for i in range(16 if quick else 200):
+        one = [g for g, k in posgen.playout(oracle, seeds[rng.choice(['start', 'kiwipete', 'pos4', 'pos5', 'castle_free', 'pos3'])], rng, 40, bias=4.0)]
+        ss = [mk_search(3 + (k % 3), -1, 0, 0, 0, [], one[k]) for k in range(len(one))]
+        sc.append(('session!', f'long{i}', ss))
     # bypass
     for name in LIGHT + HEAVY:
         if name not in seeds: continue
@@ -180,7 +199,11 @@ def collect(ctx):
         eng += ctx.engine_batch([seq_line(ss) for k, n, ss in more], shards=8)
         sc += more
         t1 = time.time()
-        mod = ctx.model_batch([seq_line(ss) for k, n, ss in sc])
+        # engine-only scenarios (kind ends with '!'): judged by the property checks on the engine's answer, not run through the model
+        midx = [i for i, (k, n, ss) in enumerate(sc) if not k.endswith('!')]
+        mans = ctx.model_batch([seq_line(sc[i][2]) for i in midx])
+        mod = [None] * len(sc)
+        for i, a in zip(midx, mans): mod[i] = a
         t2 = time.time()
         # judge every single search of every scenario
         jl = []; jmap = []
@@ -225,6 +248,9 @@ def python_checks(s, answer):
     if kv.get('ply') != '0': tags.append('C17:ply-not-restored')
     if kv.get('rep') != str(len(s['hist'])) or kv.get('REP_SAME') != '1': tags.append('C17:history-changed')
     if kv.get('GAME_SAME') != '1': tags.append('C17:position-changed')
+    try:
+        if int(kv.get('maxgap', '0')) > 16384: tags.append('C09:cadence')      # a stretch of more than 16384 nodes without a poll
+    except ValueError: pass
     return tags
 
 def run_property(ctx, props_file, tags, what, tie=True, extra_rule=''):
@@ -268,9 +294,9 @@ def run_property(ctx, props_file, tags, what, tie=True, extra_rule=''):
     for (k, n, ss), e in list(zip(sc, eng))[::max(1, len(sc) // 3)][:3]:
         ctx.sample({'scenario': f'{k}:{n}', 'request': seq_line(ss)[:300], 'engine_answer_prefix': e[:300]})
     if tie:
-        dis = [(k, n, ss, e, m) for (k, n, ss), e, m in zip(sc, eng, mod) if e != m]
+        dis = [(k, n, ss, e, m) for (k, n, ss), e, m in zip(sc, eng, mod) if m is not None and e != m]
         ctx.cov['model_vs_engine_disagreements'] = len(dis)
-        ctx.cov['traces_validated_against_impl'] = len(sc) - len(dis)
+        ctx.cov['traces_validated_against_impl'] = sum(1 for x in mod if x is not None) - len(dis)
         if dis and not found:
             k, n, ss, e, m = min(dis, key=lambda x: len(x[3]))
             # first differing chunk
